@@ -151,7 +151,17 @@ def translate(repo):
         _fail(cpath, n, "expected <controlled module>.<function>")
 
     resized = []
+    rebound = []
     for st in body(funcs['set_cache_maxsize']):
+        # M.f = N.f  (a module that imported the cached function by name is pointed to the new object): only after N.f was re-wrapped
+        if isinstance(st, ast.Assign) and len(st.targets) == 1 and isinstance(st.value, ast.Attribute) and isinstance(st.targets[0], ast.Attribute):
+            tgt, src_ = mod_attr(st.targets[0]), mod_attr(st.value)
+            if tgt[1] != src_[1] or src_ not in resized:
+                _fail(cpath, st, "alias rebinding must copy an already re-wrapped function of the same name")
+            if resolve(mods, tgt[0], tgt[1]) != resolve(mods, src_[0], src_[1]):
+                _fail(cpath, st, "alias rebinding between different functions")
+            rebound.append('%s.%s' % tgt)
+            continue
         # M.f = lru_cache(maxsize)(M.f.__wrapped__)
         ok = isinstance(st, ast.Assign) and len(st.targets) == 1 and isinstance(st.value, ast.Call) \
             and isinstance(st.value.func, ast.Call) and isinstance(st.value.func.func, ast.Name) \
@@ -165,6 +175,8 @@ def translate(repo):
         src_ = mod_attr(st.value.args[0].value)
         if tgt != src_:
             _fail(cpath, st, "set_cache_maxsize re-wraps a different function than it assigns")
+        if resolve(mods, tgt[0], tgt[1]) != '%s.%s' % tgt:
+            _fail(cpath, st, "set_cache_maxsize re-wraps a name imported from another module: the defining module keeps the old cache object")
         resized.append(tgt)
     cleared = []
     for st in body(funcs['clear_cache']):
@@ -190,12 +202,40 @@ def translate(repo):
             out.append(c if c is not None else 'UNRESOLVED:%s.%s' % (m, f))
         return out
     decorated = sorted('%s.%s' % (m, f) for m in mods for f in mods[m]['decorated'])
+    # second handles: 'from ._x import f' of a cached function, in ANY module of the package (such a name keeps the old cache object after a resize)
+    aliases = []
+    cached_names = {f: m for m in mods for f in mods[m]['decorated']}
+    for root, _, files in os.walk(os.path.join(repo, 'yastn')):
+        for fn_ in sorted(files):
+            if not fn_.endswith('.py'):
+                continue
+            pth = os.path.join(root, fn_)
+            try:
+                tr_ = ast.parse(open(pth).read())
+            except SyntaxError:
+                continue
+            for node in ast.walk(tr_):
+                if isinstance(node, ast.ImportFrom) and node.module and node.module.split('.')[-1] in mods:
+                    src_mod = node.module.split('.')[-1]
+                    for a in node.names:
+                        if a.name == '*':
+                            if os.path.relpath(pth, repo) not in ('yastn/tensor/__init__.py', 'yastn/__init__.py'):
+                                _fail(pth, node, "star import from a module with cached functions")
+                            continue
+                        if a.name in mods[src_mod]['decorated'] or resolve(mods, src_mod, a.name) is not None:
+                            holder = os.path.splitext(fn_)[0]
+                            if holder == src_mod:
+                                continue
+                            if os.path.relpath(root, os.path.join(repo, 'yastn')) != 'tensor':
+                                _fail(pth, node, "cached function imported by name outside yastn/tensor (cannot be rebound by set_cache_maxsize)")
+                            aliases.append('%s.%s' % (holder, a.asname or a.name))
+    aliases = sorted(set(aliases))
     hidden = sorted(('%s.%s' % (m, f), mods[m]['decorated'][f]['hidden']) for m in mods for f in mods[m]['decorated'])
     params = sorted(('%s.%s' % (m, f), len(mods[m]['decorated'][f]['params'])) for m in mods for f in mods[m]['decorated'])
     shas = {os.path.relpath(mods[m]['path'], repo): mods[m]['sha'] for m in mods}
     shas[os.path.relpath(cpath, repo)] = hashlib.sha256(csrc.encode()).hexdigest()
     return dict(decorated=decorated, resized=canon_list(resized, 'resized'), cleared=canon_list(cleared, 'cleared'),
-                info=canon_list(info, 'info'), hidden=hidden, params=params, shas=shas, controlled=controlled,
+                info=canon_list(info, 'info'), hidden=hidden, params=params, shas=shas, controlled=controlled, aliases=aliases, rebound=sorted(set(rebound)),
                 binding_sites=dict(resized=resized, cleared=cleared))
 
 
@@ -208,6 +248,8 @@ def emit(t):
     o.append("Definition resized : list string := %s." % strs(t['resized']))
     o.append("Definition cleared : list string := %s." % strs(t['cleared']))
     o.append("Definition info : list string := %s." % strs(t['info']))
+    o.append("Definition aliases : list string := %s." % strs(t['aliases']))
+    o.append("Definition rebound : list string := %s." % strs(t['rebound']))
     o.append("Definition hidden_inputs : list (string * list string) := [%s]." %
              '; '.join('("%s", %s)' % (f, strs(h)) for f, h in t['hidden']))
     o.append("Definition arity : list (string * nat) := [%s]." % '; '.join('("%s", %d%%nat)' % (f, n) for f, n in t['params']))
